@@ -90,11 +90,10 @@ func (sc *synonymIndexCache) createAndCacheLOCKED(fieldID uint16, mem []byte) (*
 	for i := 0; i < int(numSyns); i++ {
 		synID, n := binary.Uvarint(mem[pos : pos+binary.MaxVarintLen64])
 		pos += uint64(n)
+		// a synonym may be the empty string (the builder and the merge
+		// write it like any other): its length is then 0
 		termLen, n := binary.Uvarint(mem[pos : pos+binary.MaxVarintLen64])
 		pos += uint64(n)
-		if termLen == 0 {
-			return nil, nil, fmt.Errorf("term length is 0")
-		}
 		term := mem[pos : pos+uint64(termLen)]
 		pos += uint64(termLen)
 		synTermMap[uint32(synID)] = term
